@@ -99,10 +99,19 @@ def add(a, b):
     return tuple(x + y for x, y in zip(a, b))
 
 
-def shell(l, center, K=1, M=1, ctype="cartesian", pat=0, rot=0, tier="thorough"):
+def shell(l, center, K=1, M=1, ctype="cartesian", pat=0, rot=0, tier="thorough", tabulated=False):
+    """tabulated=True: coefficients as published tables give them - each column normalised, then rounded to seven
+    decimals, so that the contraction normalisation constant is 1 to within 1e-6 but not exactly 1."""
     pats = exp_patterns(l, K, tier)
     e = pats[pat % len(pats)]
-    return RefShell(l, center, e, coeffs(K, M, rot), ctype)
+    sh = RefShell(l, center, e, coeffs(K, M, rot), ctype)
+    if tabulated:
+        from .ref.shells import contraction_norms
+
+        N = [float(x) for x in contraction_norms(sh)]
+        co = np.array(sh.coeffs) * np.array(N)[None, :]
+        sh = sh.with_(coeffs=np.round(co, 7))
+    return sh
 
 
 # shape ladder: pairwise different (l, K, M) so every block of a multi-shell basis has its own size
